@@ -70,6 +70,39 @@ claim('C08',
       'DESIGN.md section 4 C08')
 
 
+claim('C15',
+      'The CSV, HDF5 and JSON files of real runs are projected to abstract views and TLC (Outputs_Trace) '
+      'decides every clause: row order/ids, label/name/alias through the name tables, confidence to four '
+      'decimals in exact integer arithmetic, HDF5 read-back of every entry, embedded taxonomy; Outputs_MC '
+      'proves the node<->integer / -1 padding encoding round-trips for all entries.',
+      'Trusted: TLC, python csv module, projection. Float fields JSON vs HDF5 compared bit for bit in the '
+      'projection; correlation-as-confidence (B=1) compared as a numeric leaf.',
+      'TLA+ model Outputs.tla + trace validation of the three output files', 'DESIGN.md section 4 C15')
+claim('C17',
+      'For tree shapes and reduced trees emitted by TLC (DropLevel/Flatten of Taxonomy.tla), pairs of real '
+      'runs with a common seed (drop/flatten vs a reference that never had the level / one-level tree with '
+      'the union table / absent level) are projected and Relations_Trace decides bitwise equality on the '
+      'remaining levels and that removed levels are inferred ancestors repeating the numbers.',
+      'Trusted: TLC, projection. Tops with a single node are excluded (known finding F10, reported by C01).',
+      'TLC-generated scenario pairs + relation decided by TLA+ operators (Relations.tla)',
+      'DESIGN.md section 4 C17')
+claim('C06',
+      'Transformations of a base query (all row permutations, all subsets, duplication, foreign cells, all '
+      'chunk sizes, 1-3 workers, factor 1) are run for real and Relations_Trace joins on the cell id: '
+      'discrete fields equal, floats within 1e-8; MapRun_MC shows the batched election never mixes rows.',
+      'Trusted: TLC, projection. Cells with a near-tie (<1e-9) of the two best correlations are counted '
+      'undetermined and not asserted.',
+      'metamorphic pairs decided by TLA+ relation operators; TLC design model', 'DESIGN.md section 4 C06')
+claim('C07',
+      'Normalize.tla (object guards + mapper order of operations) is checked by TLC and every operation '
+      'history is replayed into CellByGeneMatrix; paired real runs (column permutation, extra/removed '
+      'non-marker genes: bitwise; raw vs declared log2CPM, positive scaling at factor 1: discrete equal, '
+      'floats 1e-8) are decided by Relations_Trace; negative raw input must be rejected per encoding.',
+      'Trusted: TLC, numpy log2 for the harness-computed log2CPM. Near-ties not asserted.',
+      'TLA+ model replayed into the class + metamorphic pairs decided by TLA+ relation operators',
+      'DESIGN.md section 4 C07')
+
+
 def build():
     props = [json.loads(l) for l in open(ROOT / 'properties.jsonl')]
     checks = []
